@@ -527,6 +527,11 @@ func vfc07WriteBlock(t testing.TB, blocksDir, scratch string, sp vfc07BlockSpec)
 // vfc07NewFixture builds the blocks of case rng under dir and uploads them into an in-memory bucket.
 func vfc07NewFixture(t testing.TB, rng *rand.Rand, dir string, o vfc07Opts) *vfc07Fixture {
 	u, specs := vfc07GenFixtureSpec(rng, o)
+	return vfc07FixtureFromSpecs(t, dir, u, specs)
+}
+
+// vfc07FixtureFromSpecs writes and uploads the given blocks (also used to replay hand-written witnesses).
+func vfc07FixtureFromSpecs(t testing.TB, dir string, u *vfc07Universe, specs []vfc07BlockSpec) *vfc07Fixture {
 	fx := &vfc07Fixture{dir: dir, blocksDir: filepath.Join(dir, "blocks"), u: u, bkt: objstore.NewInMemBucket(), tmin: math.MaxInt64, tmax: math.MinInt64}
 	if err := os.MkdirAll(fx.blocksDir, 0o777); err != nil {
 		vfc07Setup("mkdir: %v", err)
@@ -828,7 +833,29 @@ func vfc07LastRune(s string) string {
 // vfc07GenMatchers draws 1..3 matchers over stored names, external label names and an absent name;
 // a following matcher reuses the previous name with probability 1/3 (merging of posting groups).
 func vfc07GenMatchers(rng *rand.Rand, u *vfc07Universe, extProb float64) []vfc07M {
-	n := []int{1, 1, 1, 2, 2, 3}[rng.Intn(6)]
+	return vfc07GenMatchersN(rng, u, extProb, []int{1, 1, 1, 2, 2, 3}[rng.Intn(6)])
+}
+
+// vfc07GenMatchersMulti draws 2..3 matchers until at least two different stored names are
+// constrained (several posting groups: the precondition of lazy posting expansion).
+func vfc07GenMatchersMulti(rng *rand.Rand, u *vfc07Universe, extProb float64) []vfc07M {
+	var ms []vfc07M
+	for try := 0; try < 20; try++ {
+		ms = vfc07GenMatchersN(rng, u, extProb, 2+rng.Intn(2))
+		names := map[string]bool{}
+		for _, m := range ms {
+			if _, ok := u.values[m.m.Name]; ok {
+				names[m.m.Name] = true
+			}
+		}
+		if len(names) >= 2 {
+			break
+		}
+	}
+	return ms
+}
+
+func vfc07GenMatchersN(rng *rand.Rand, u *vfc07Universe, extProb float64, n int) []vfc07M {
 	var out []vfc07M
 	extVals := map[string][]string{"cluster": {"eu", "us"}, "replica": {"r0", "r1", "r2"}, "region": {"one", "two"}}
 	for i := 0; i < n; i++ {
@@ -921,6 +948,24 @@ func vfc07GenReplicaLabels(rng *rand.Rand, u *vfc07Universe) []string {
 		out = append(out, c)
 	}
 	return out
+}
+
+// vfc07DupSetClass names the one selector class that is singled out in fingerprints: a regex set
+// matcher that lists the same alternative twice (a|b|a) next to another matcher on the same label.
+const vfc07DupSetClass = "dup-alternative-set+same-name"
+
+// vfc07Class is the fingerprint class of a selector.
+func vfc07Class(ms []vfc07M) string {
+	count := map[string]int{}
+	for _, m := range ms {
+		count[m.m.Name]++
+	}
+	for _, m := range ms {
+		if strings.HasSuffix(m.shape, "-dup") && count[m.m.Name] > 1 {
+			return vfc07DupSetClass
+		}
+	}
+	return vfc07Shapes(ms)
 }
 
 func vfc07SortedKeys(m map[string]struct{}) []string {
